@@ -20,7 +20,8 @@ CONSTANTS Mode,          \* "sage" | "pfi"
           Alpha,         \* smoothing parameter, a rational <<n, d>>
           StoreKind,     \* "batch" | "interval" | "geometric" | "uniform"
           Cap,           \* storage capacity
-          Strategy,      \* "joint" | "product"
+          Strategy,      \* "joint" | "product" (MarginalImputer) | "default" (DefaultImputer: configured values, one evaluation)
+          NOver,         \* per-call n_inner_samples override explored in addition to the constructor value (0 = none)
           ModelKind,     \* "scalar" | "multi"
           CommitEarly,   \* negative control
           MaxCalls, MaxFaults,
@@ -52,19 +53,19 @@ VARIABLES
    \* persistent state of the explainer
    seen, imp, var, ml, mo, mp, margPred, store, arrivals,
    \* control state and locals of the explain_one call in progress
-   pc, cur, upd, order, pos, smp, preds, inp, L, Lm, pred0, groups, lk, rows, nmodel, stored, cb, schoice, fcb,
+   pc, cur, upd, ncur, order, pos, smp, preds, inp, L, Lm, pred0, groups, lk, rows, nmodel, stored, cb, schoice, fcb,
    \* history / bookkeeping used only by properties
    snap, outcome, ncalls, nfaults, contribHist
 
 persist == <<seen, imp, var, ml, mo, mp, margPred, store, arrivals>>
-locals == <<cur, upd, order, pos, smp, preds, inp, L, Lm, pred0, groups, lk, rows, nmodel, stored, cb, schoice, fcb>>
+locals == <<cur, upd, ncur, order, pos, smp, preds, inp, L, Lm, pred0, groups, lk, rows, nmodel, stored, cb, schoice, fcb>>
 hist == <<snap, outcome, ncalls, nfaults, contribHist>>
 vars == <<persist, pc, locals, hist>>
 est == <<imp, var, ml, mo, mp, margPred>>
 
 Init == /\ seen = 0 /\ imp = T!MVInit /\ var = T!MVInit /\ ml = T!TInit /\ mo = T!TInit /\ mp = T!MVInit
         /\ margPred = <<>> /\ store = St!Empty /\ arrivals = 0
-        /\ pc = "idle" /\ cur = <<>> /\ upd = TRUE /\ order = <<>> /\ pos = 0 /\ smp = 0 /\ preds = <<>>
+        /\ pc = "idle" /\ cur = <<>> /\ upd = TRUE /\ ncur = NInner /\ order = <<>> /\ pos = 0 /\ smp = 0 /\ preds = <<>>
         /\ inp = <<>> /\ L = <<>> /\ Lm = QZero /\ pred0 = <<>> /\ groups = <<>> /\ lk = 0 /\ rows = <<>>
         /\ nmodel = 0 /\ stored = 0 /\ cb = 0 /\ schoice = 0 /\ fcb = 0
         /\ snap = <<>> /\ outcome = "none" /\ ncalls = 0 /\ nfaults = 0 /\ contribHist = <<>>
@@ -76,9 +77,9 @@ Rows == store.sx
 Subset == IF Mode = "sage" THEN S!NotInS(Feat, order, pos) ELSE {order[pos]}
 mpNext == T!MVUpd(Kind, Alpha, mp, pred0)                  \* marginal-prediction tracker after this call
 
-Begin(it, u) ==
+Begin(it, u, n) ==
    /\ pc = "idle" /\ ncalls < MaxCalls
-   /\ cur' = it /\ upd' = u /\ snap' = est /\ ncalls' = ncalls + 1 /\ outcome' = "running"
+   /\ cur' = it /\ upd' = u /\ ncur' = n /\ snap' = est /\ ncalls' = ncalls + 1 /\ outcome' = "running"
    /\ order' = (IF Mode = "pfi" THEN [j \in Feat |-> j] ELSE <<>>)
    /\ pos' = 0 /\ smp' = 0 /\ preds' = <<>> /\ inp' = <<>> /\ L' = <<>> /\ Lm' = QZero /\ pred0' = <<>>
    /\ groups' = [f \in Feat |-> <<>>] /\ lk' = 0 /\ rows' = <<>> /\ nmodel' = 0 /\ stored' = 0
@@ -90,12 +91,12 @@ Begin(it, u) ==
 \* np.random.permutation(feature_names): one uniform order per explained observation
 DrawPerm(p) ==
    /\ pc = "perm" /\ order' = p /\ pc' = "model"
-   /\ UNCHANGED <<persist, cur, upd, pos, smp, preds, inp, L, Lm, pred0, groups, lk, rows, nmodel, stored, cb, schoice, fcb, hist>>
+   /\ UNCHANGED <<persist, cur, upd, ncur, pos, smp, preds, inp, L, Lm, pred0, groups, lk, rows, nmodel, stored, cb, schoice, fcb, hist>>
 
 \* callback: model(x_i)
 CallModel ==
    /\ pc = "model" /\ pred0' = Model(X) /\ nmodel' = nmodel + 1 /\ pc' = "lossmodel"
-   /\ UNCHANGED <<persist, cur, upd, order, pos, smp, preds, inp, L, Lm, groups, lk, rows, stored, schoice, fcb, hist>>
+   /\ UNCHANGED <<persist, cur, upd, ncur, order, pos, smp, preds, inp, L, Lm, groups, lk, rows, stored, schoice, fcb, hist>>
    /\ cb' = cb + 1
 
 \* callback: loss(y_i, model(x_i))
@@ -107,7 +108,7 @@ CallLossModel ==
       THEN /\ mo' = T!TUpdV(Kind, Alpha, mo, Loss(Y, pred0)) /\ mp' = mpNext /\ margPred' = T!MVNorm(mpNext)
            /\ UNCHANGED <<seen, imp, var, ml, store, arrivals>>
       ELSE UNCHANGED persist
-   /\ UNCHANGED <<cur, upd, order, smp, preds, inp, L, pred0, groups, lk, rows, nmodel, stored, schoice, fcb, hist>>
+   /\ UNCHANGED <<cur, upd, ncur, order, smp, preds, inp, L, pred0, groups, lk, rows, nmodel, stored, schoice, fcb, hist>>
    /\ cb' = cb + 1
 
 \* callback: loss(y_i, normalised running mean prediction *including* this observation)
@@ -117,33 +118,38 @@ CallLossMarg ==
    /\ IF CommitEarly THEN /\ ml' = T!TUpdV(Kind, Alpha, ml, Loss(Y, MargPredNow))
                           /\ UNCHANGED <<seen, imp, var, mo, mp, margPred, store, arrivals>>
       ELSE UNCHANGED persist
-   /\ UNCHANGED <<cur, upd, order, smp, preds, inp, Lm, pred0, groups, lk, rows, nmodel, stored, schoice, fcb, hist>>
+   /\ UNCHANGED <<cur, upd, ncur, order, smp, preds, inp, Lm, pred0, groups, lk, rows, nmodel, stored, schoice, fcb, hist>>
    /\ cb' = cb + 1
 
 \* callback: imputer.impute(subset, x_i, n) is entered
 ImputeBegin ==
    /\ pc = "impute" /\ pc' = "draw" /\ smp' = 1 /\ preds' = <<>>
    /\ rows' = Append(rows, <<>>)
-   /\ UNCHANGED <<persist, cur, upd, order, pos, inp, L, Lm, pred0, groups, lk, nmodel, stored, schoice, fcb, hist>>
+   /\ UNCHANGED <<persist, cur, upd, ncur, order, pos, inp, L, Lm, pred0, groups, lk, nmodel, stored, schoice, fcb, hist>>
    /\ cb' = cb + 1
 
 \* random draw(s) of one inner sample: joint = one row for all features, product = a row per feature
+Defaults == [f \in Feat |-> 3]                 \* values configured for the DefaultImputer
 Draws == IF pc # "draw" THEN {}
          ELSE IF Strategy = "joint" THEN { [f \in Subset |-> r] : r \in 1..Len(Rows) }
-         ELSE [Subset -> 1..Len(Rows)]
+         ELSE IF Strategy = "product" THEN [Subset -> 1..Len(Rows)]
+         ELSE { [f \in Subset |-> 0] }         \* no random draw at all
 ImputeDraw(dr) ==
-   /\ pc = "draw" /\ Len(Rows) > 0
-   /\ inp' = [f \in Feat |-> IF f \in Subset THEN Rows[dr[f]][f] ELSE X[f]]
+   /\ pc = "draw" /\ (Len(Rows) > 0 \/ Strategy = "default")
+   /\ inp' = [f \in Feat |-> IF f \in Subset THEN (IF Strategy = "default" THEN Defaults[f] ELSE Rows[dr[f]][f]) ELSE X[f]]
    /\ rows' = [rows EXCEPT ![Len(rows)] = Append(@, dr)]
    /\ pc' = "imodel"
-   /\ UNCHANGED <<persist, cur, upd, order, pos, smp, preds, L, Lm, pred0, groups, lk, nmodel, stored, cb, schoice, fcb, hist>>
+   /\ UNCHANGED <<persist, cur, upd, ncur, order, pos, smp, preds, L, Lm, pred0, groups, lk, nmodel, stored, cb, schoice, fcb, hist>>
 
 \* callback: model(imputed input)
 ImputeModel ==
-   /\ pc = "imodel" /\ preds' = Append(preds, Model(inp)) /\ nmodel' = nmodel + 1
-   /\ IF smp < NInner THEN smp' = smp + 1 /\ pc' = "draw" /\ lk' = lk
-      ELSE smp' = smp /\ pc' = "lossfeat" /\ lk' = 1
-   /\ UNCHANGED <<persist, cur, upd, order, pos, inp, L, Lm, pred0, groups, rows, stored, schoice, fcb, hist>>
+   /\ pc = "imodel" /\ nmodel' = nmodel + 1
+   /\ IF Strategy = "default"
+      THEN preds' = [k \in 1..ncur |-> Model(inp)] /\ smp' = smp /\ pc' = "lossfeat" /\ lk' = 1
+      ELSE /\ preds' = Append(preds, Model(inp))
+           /\ IF smp < ncur THEN smp' = smp + 1 /\ pc' = "draw" /\ lk' = lk
+              ELSE smp' = smp /\ pc' = "lossfeat" /\ lk' = 1
+   /\ UNCHANGED <<persist, cur, upd, ncur, order, pos, inp, L, Lm, pred0, groups, rows, stored, schoice, fcb, hist>>
    /\ cb' = cb + 1
 
 Advance == IF pos = D THEN /\ pc' = (IF CommitEarly THEN "commit" ELSE IF upd THEN "store" ELSE "commit")
@@ -158,7 +164,7 @@ LossFeat ==
       ELSE /\ groups' = [groups EXCEPT ![order[pos]] = Append(@, Loss(Y, preds[lk]))]
            /\ IF lk < Len(preds) THEN lk' = lk + 1 /\ UNCHANGED <<pc, pos>> ELSE lk' = lk /\ Advance
            /\ UNCHANGED L
-   /\ UNCHANGED <<persist, cur, upd, order, smp, preds, inp, Lm, pred0, rows, nmodel, stored, schoice, fcb, hist>>
+   /\ UNCHANGED <<persist, cur, upd, ncur, order, smp, preds, inp, Lm, pred0, rows, nmodel, stored, schoice, fcb, hist>>
    /\ cb' = cb + 1
 
 Contrib == IF Mode = "sage" THEN S!SageContrib(order, L) ELSE S!PfiContrib(groups, Lm)
@@ -186,7 +192,7 @@ StoreUpdate(choice) ==
    /\ arrivals' = arrivals + 1 /\ stored' = stored + 1
    /\ pc' = IF seen = 0 \/ CommitEarly THEN "ret" ELSE "commit"
    /\ cb' = cb + 1 /\ schoice' = choice
-   /\ UNCHANGED <<seen, imp, var, ml, mo, mp, margPred, cur, upd, order, pos, smp, preds, inp, L, Lm, pred0, groups,
+   /\ UNCHANGED <<seen, imp, var, ml, mo, mp, margPred, cur, upd, ncur, order, pos, smp, preds, inp, L, Lm, pred0, groups,
                   lk, rows, nmodel, fcb, hist>>
 
 Return ==
@@ -200,16 +206,16 @@ Fault ==
    /\ pc' = "idle" /\ outcome' = "exc" /\ nfaults' = nfaults + 1
    \* whether a failed call counts as seen is left open by the properties
    /\ seen' \in {seen, seen + 1} /\ fcb' = cb + 1
-   /\ UNCHANGED <<imp, var, ml, mo, mp, margPred, store, arrivals, cur, upd, order, pos, smp, preds, inp, L, Lm, pred0,
+   /\ UNCHANGED <<imp, var, ml, mo, mp, margPred, store, arrivals, cur, upd, ncur, order, pos, smp, preds, inp, L, Lm, pred0,
                   groups, lk, rows, nmodel, stored, cb, schoice, snap, ncalls, contribHist>>
 
 \* a naturally occurring failure: the imputer finds the storage empty (update_storage = False before)
 EmptyStorageFault ==
-   /\ pc = "draw" /\ Len(Rows) = 0
+   /\ pc = "draw" /\ Len(Rows) = 0 /\ Strategy # "default"
    /\ pc' = "idle" /\ outcome' = "exc" /\ seen' \in {seen, seen + 1}
    /\ UNCHANGED <<imp, var, ml, mo, mp, margPred, store, arrivals, locals, snap, ncalls, nfaults, contribHist>>
 
-Next == \/ \E it \in Items, u \in (IF AllowNoUpd THEN BOOLEAN ELSE {TRUE}) : Begin(it, u)
+Next == \/ \E it \in Items, u \in (IF AllowNoUpd THEN BOOLEAN ELSE {TRUE}), n \in ({NInner} \cup (IF NOver > 0 THEN {NOver} ELSE {})) : Begin(it, u, n)
         \/ \E p \in { q \in [1..D -> Feat] : \A a, b \in 1..D : a # b => q[a] # q[b] } : DrawPerm(p)
         \/ CallModel \/ CallLossModel \/ CallLossMarg \/ ImputeBegin
         \/ \E dr \in Draws : ImputeDraw(dr)
@@ -248,8 +254,9 @@ VarNonNegative == \A f \in DOMAIN var.trk : QLeq(QZero, var.trk[f].val)
 
 \* C02 / C03: the contribution, re-derived declaratively from the recorded draws
 ImputedInput(j, dr) == LET sub == IF Mode = "sage" THEN S!NotInS(Feat, order, j) ELSE {order[j]}
-                       IN [f \in Feat |-> IF f \in sub THEN Rows[dr[f]][f] ELSE X[f]]
-DeclPreds(j) == [k \in 1..Len(rows[j]) |-> Model(ImputedInput(j, rows[j][k]))]
+                       IN [f \in Feat |-> IF f \in sub THEN (IF Strategy = "default" THEN Defaults[f] ELSE Rows[dr[f]][f]) ELSE X[f]]
+DeclPreds(j) == IF Strategy = "default" THEN [k \in 1..ncur |-> Model(ImputedInput(j, rows[j][1]))]
+                ELSE [k \in 1..Len(rows[j]) |-> Model(ImputedInput(j, rows[j][k]))]
 DeclSage(f) == LET j == S!PosOf(order, f)
                    before == IF j = 1 THEN Loss(Y, T!MVNorm(T!MVUpd(Kind, Alpha, snap[5], Model(X))))
                              ELSE Loss(Y, T!MeanOutput(DeclPreds(j - 1)))
@@ -263,7 +270,7 @@ ChainEndsAtModelLoss == (Mode = "sage" /\ Len(L) = D + 1) => L[D + 1] = Lm
 
 \* C15: evaluation budget, seen counter, storage discipline
 FirstCallNoModel == (pc = "ret" /\ Len(rows) = 0 /\ L = <<>> /\ pred0 = <<>>) => nmodel = 0
-BudgetOnExplained == (pc = "ret" /\ Len(L) + Len(rows) > 0) => nmodel = 1 + D * NInner
+BudgetOnExplained == (pc = "ret" /\ Len(L) + Len(rows) > 0) => nmodel = 1 + D * (IF Strategy = "default" THEN 1 ELSE ncur)
 FirstCallSeedsOnly == (seen = 1 /\ Idle /\ outcome = "ok" /\ ncalls = 1) =>
                          /\ est = <<T!MVInit, T!MVInit, T!TInit, T!TInit, T!MVInit, <<>>>>
                          /\ Len(store.sx) = (IF upd THEN 1 ELSE 0)
